@@ -87,3 +87,47 @@ def r_arg_selection(cx):
     cx.ob("R-ARG-SELECTION", "summary", True,
           "%d calls of crate functions with two or more parameters: no argument is a variable named like another "
           "parameter of the same type" % sites, nontrivial=sites > 0)
+
+
+@rule("R-DEFAULTED-FIELD", ["C05"])
+def r_defaulted_field(cx):
+    """A struct built with `..Default::default()` silently defaults every field not spelled out. Where the function
+    building it has a parameter of the same name and type as such a defaulted field (`fn new(.., ellps: &Ellipsoid)`
+    building `Jacobian { .., ..Default::default() }` without `ellps`), the caller's value is dropped on the floor: the
+    scale factors are then computed on the default ellipsoid, whatever ellipsoid the projection used."""
+    n = 0
+    for name in sorted(cx.f.lib["fns"]):
+        if "::tests::" in name or not name.startswith(("math::", "inner_op::", "ellipsoid::", "op::", "grid::", "coordinate::")):
+            continue
+        f = cx.f.fn(name)
+        argnames = {f.name_of_local.get(i): str(f.local_ty(i)).replace("&", "").strip() for i in range(1, f.nargs + 1)}
+        for bb, i, s in f.all_stmts():
+            if s["k"] != "assign" or s["rv"]["k"] != "agg" or s["rv"].get("agg") != "adt":
+                continue
+            adt = s["rv"].get("adt")
+            info = cx.f.lib["adts"].get(adt) or next((v for k, v in cx.f.lib["adts"].items() if k.endswith("::" + str(adt))), None)
+            if info is None or len(info["variants"]) != 1:
+                continue
+            fields = info["variants"][0]["fields"]
+            ops = s["rv"].get("ops", [])
+            if len(ops) != len(fields):
+                continue
+            vals = [f.operand(o, (bb, i)) for o in ops]
+            defaulted = []
+            for fd, v in zip(fields, vals):
+                v0 = mir.strip_refs(v)
+                if v0[0] == "proj" and v0[1][0] == "call" and isinstance(v0[1][1], str) and v0[1][1].endswith("Default>::default"):
+                    defaulted.append(fd)
+            if not defaulted:
+                continue
+            n += 1
+            lost = [fd["name"] for fd in defaulted if fd["name"] in argnames and
+                    argnames[fd["name"]] == str(fd.get("ty", "")).replace("&", "").strip()]
+            cx.ob("R-DEFAULTED-FIELD", "%s/%s" % (name, str(adt).rsplit("::", 1)[-1]), not lost,
+                  "%s: no field left to ..Default::default() has a like-named parameter" % name if not lost else
+                  "%s builds %s with ..Default::default() and leaves the field(s) %s to the default although it has "
+                  "parameter(s) of that name and type: the caller's value is ignored" % (name, adt, ", ".join(lost)),
+                  cx.where(s.get("span") or f.d["span"]))
+    cx.ob("R-DEFAULTED-FIELD", "summary", True, "%d struct literals completed from Default::default() examined" % n,
+          nontrivial=False)
+    cx.count("R-DEFAULTED-FIELD", "struct_updates", n)
